@@ -209,3 +209,14 @@ void enumerate(const Emit& emit, const std::string&) {
       emit(b);
     }
 }
+
+// fixed finding e845f42: Get_i not bracketing for nx-1 not a power of two and for non-uniform grids
+void regressions() {
+  CaseInfo ci;
+  for (unsigned nx : {3u, 4u, 6u, 7u, 11u, 100u}) for (int kind = 0; kind < 2; kind++) {
+    Grid g(nx);
+    if (kind == 0) g.Set_xrange(0.0, 1.0, "linear"); else g.Set_xrange(1.0, 1000.0, "log");
+    std::vector<double> x = g.Get_xrange();
+    for (unsigned k = 0; k < nx; k++) { check_lookup(g, x, x[k], "regression", ci); check_lookup(g, x, ByteSource::ulp_step(x[k], 1), "regression", ci); check_lookup(g, x, ByteSource::ulp_step(x[k], -1), "regression", ci); }
+  }
+}
